@@ -348,27 +348,7 @@ impl World {
     }
 
     pub fn to_json(&self) -> Value {
-        json!({
-            "net": self.net.to_json(),
-            "traversal": match &self.trav {
-                TravCfg::Distance{unit} => json!({"type":"distance","unit":unit.to_string()}),
-                TravCfg::Speed{speeds,speed_unit,dist_unit,time_unit} => json!({"type":"speed","speeds":speeds,"speed_unit":speed_unit.to_string(),"dist_unit":dist_unit.to_string(),"time_unit":time_unit.to_string()}),
-            },
-            "state": {"dist_unit": self.state.dist_unit.to_string(), "dist_init": self.state.dist_init, "time_unit": self.state.time_unit.to_string(), "time_init": self.state.time_init},
-            "access": match &self.access {
-                AccessCfg::None => json!("none"),
-                AccessCfg::TurnDelay{headings,table,unit} => json!({"headings":headings,"table":table,"unit":unit.to_string()}),
-            },
-            "cost": {
-                "weights": self.cost.weights,
-                "vehicle_rates": self.cost.vehicle_rates.iter().map(|(k,v)| json!([k, rate_json(v)])).collect::<Vec<_>>(),
-                "edge_surcharge": self.cost.edge_surcharge.iter().map(|(k,t)| json!([k, t.iter().map(|(e,c)| json!([e,c])).collect::<Vec<_>>()])).collect::<Vec<_>>(),
-                "turn_surcharge": self.cost.turn_surcharge.iter().map(|(k,t)| json!([k, t.iter().map(|((a,b),c)| json!([a,b,c])).collect::<Vec<_>>()])).collect::<Vec<_>>(),
-                "agg": format!("{:?}", self.cost.agg),
-            },
-            "frontier": frontier_json(&self.frontier),
-            "termination": self.term.to_json(),
-        })
+        crate::worldjson::world_to_json(self)
     }
 }
 
